@@ -43,6 +43,7 @@ Cnt(n) == IF Wrap = 0 THEN n ELSE n % Wrap
 
 \* error numbers (errmsg.h) the model refers to by name
 NumNullResMem       == 290      \* a warning  (< 1000)
+NumSymbolUndef      == 1010
 NumUnknownInstr     == 1200
 NumNoRestoreFrame   == 1460
 NumMissEndif        == 1470
@@ -50,6 +51,7 @@ NumMissingEndSect   == 1485
 NumOpenStruct       == 1551
 NumOpenMacro        == 1800
 NumOpenREPT         == 1803
+NumUnknownFunction  == 1860
 NumInvString        == 1970
 NumExpectedError    == 2130
 NumNoNestExpect     == 2140
